@@ -521,8 +521,8 @@ class Session:
             elif op.get("_repeat") and impl["exc"] not in ("KeyError", "IndexError", "TypeError", "AttributeError", "ZeroDivisionError"):
                 self.fail("C18", "repeat-raises", {"path": p, "exc": impl["exc"]})
             # ---- C01: pull-model re-evaluation
-            if impl["exc"] != "ok":
-                self.c01_live = False
+            if impl["exc"] != "ok" and not (frozen and impl["exc"] == "ValueError"):
+                self.c01_live = False          # (a call rejected by the freeze leaves everything as it was)
             if mirror.dataflow_cyclic() or mirror.overlapping_targets():
                 if self.c01_live:
                     stats["c01_out_of_scope"] += 1
@@ -637,9 +637,11 @@ class Session:
                     known = "D1" if (cyc2 and k in trig) else None
                     self.fail("C01", "stale", {"assigned": p, "location": q, "got": repr(got), "want": repr(want),
                                                "declared_cycle_in_triggered_set": bool(cyc2)}, known)
-                    if known is None and getattr(self, "ever_frozen", False) and not self.frozen:
-                        # "after unfreeze_tree() the manager behaves as if it had never been frozen"
-                        self.fail("C17", "stale-after-unfreeze", {"assigned": p, "location": q, "got": repr(got), "want": repr(want)})
+                    if known is None and getattr(self, "ever_frozen", False):
+                        # "assigning plain values ... still updates all their dependants" while frozen, and "after
+                        # unfreeze_tree() the manager behaves as if it had never been frozen"
+                        self.fail("C17", "stale-while-frozen" if self.frozen else "stale-after-unfreeze",
+                                  {"assigned": p, "location": q, "got": repr(got), "want": repr(want)})
                     self.c01_live = False
                     return
         for k, v in mirror.plain.items():
@@ -650,6 +652,8 @@ class Session:
                 continue
             if not same(got, v):
                 self.fail("C01", "plain-location-changed", {"assigned": p, "location": q, "got": repr(got), "want": repr(v)})
+                if getattr(self, "ever_frozen", False):
+                    self.fail("C17", "plain-location-changed-after-freeze", {"assigned": p, "location": q, "got": repr(got), "want": repr(v)})
                 self.c01_live = False
                 return
 
@@ -836,6 +840,26 @@ def scenario_c13_container(hist_id, stats, failures):
         failures.append({"property": "C13", "kind": "function-differs-from-assignments", "hist": hist_id, "op_index": 0,
                          "detail": {"scenario": "definition reads the enclosing container", "via_function": out[0], "via_assignment": out[1]},
                          "known": None})
+
+
+def c17_corpus():
+    """several frozen periods around changes of the graph: whatever a frozen period remembered must not outlive it"""
+    X, Y, W_, Z = (["d", ["i", k]] for k in "xywz")
+    base = [{"op": "reset"}, {"op": "container", "label": "d", "value": {"d": [["x", 1], ["y", 0], ["w", 0], ["z", 0]]}},
+            {"op": "setexpr", "path": Y, "expr": ["bin", "Mul", ["ref", X], ["lit", 2]]},
+            {"op": "setexpr", "path": W_, "expr": ["bin", "Add", ["ref", Y], ["lit", 1]]}]
+    # a definition removed between two frozen periods
+    yield base + [{"op": "freeze"}, {"op": "set", "path": X, "value": 3}, {"op": "unfreeze"},
+                  {"op": "set", "path": Y, "value": 11}, {"op": "freeze"}, {"op": "set", "path": X, "value": 5},
+                  {"op": "unfreeze"}, {"op": "set", "path": X, "value": 7}]
+    # a definition added after a frozen period
+    yield base + [{"op": "freeze"}, {"op": "set", "path": X, "value": 3}, {"op": "unfreeze"},
+                  {"op": "setexpr", "path": Z, "expr": ["bin", "Add", ["ref", X], ["lit", 10]]},
+                  {"op": "set", "path": X, "value": 5}, {"op": "freeze"}, {"op": "set", "path": X, "value": 6}]
+    # a definition replaced between two frozen periods
+    yield base + [{"op": "freeze"}, {"op": "set", "path": X, "value": 3}, {"op": "unfreeze"},
+                  {"op": "setexpr", "path": Y, "expr": ["bin", "Sub", ["ref", X], ["lit", 1]]},
+                  {"op": "freeze"}, {"op": "set", "path": X, "value": 5}, {"op": "unfreeze"}]
 
 
 def run_history(rng, family, hist_id, out_lines, stats, failures, maxops):
@@ -1044,6 +1068,12 @@ def main():
             stats["histories"] += 1
     if a.corpus and a.family == "c13":
         scenario_c13_container(hid, stats, failures); hid += 1
+    elif a.corpus and a.family == "c17":
+        for ops in c17_corpus():
+            sess = replay_ops(ops, hid, stats, failures, a.family)
+            lines.extend(sess.lines)
+            hid += 1
+            stats["histories"] += 1
     elif a.corpus:
         scenario_d1(hid, lines, stats, failures); hid += 1
         scenario_d8(hid, stats, failures); hid += 1
